@@ -38,7 +38,7 @@ def run_seed(sdir):
             res['error'] = 'patch does not apply to HEAD: ' + r.stderr.strip()[:200]
             return res
         res['applies'] = True
-        env = dict(os.environ, SA_REPO=wt, SA_OUT=out, PYTHONPATH=VERIF)
+        env = dict(os.environ, SA_REPO=wt, SA_OUT=out, SA_CACHE=os.path.join(out, 'cache'), PYTHONPATH=VERIF)
         for pid in PROPS:
             r = subprocess.run(['/venv/bin/python', '-m', 'sa', pid, '--tier', 'quick'], cwd=VERIF, env=env, capture_output=True, text=True)
             rules = sorted(set(re.findall(r'\[(C\d\d\.[^\]]+)\]', '\n'.join(l for l in r.stdout.splitlines() if not l.startswith('KNOWN-FINDING')))))
